@@ -4,7 +4,7 @@ from __future__ import annotations
 import numpy as np
 
 from vpkit import SubCheck, fail, ok
-from vpkit.training import faulty_optimizer, make_program, optimizer, reference_loop, tree_close
+from vpkit.training import faulty_optimizer, make_program, optimizer, quiet, reference_loop, tree_close, verbosity
 
 PROPERTY = "C18"
 LEVEL = "fault_enumeration"
@@ -57,8 +57,11 @@ def run_case(case):
     ran = len(ref["loss"])
     if ran != k + 1:
         return fail("harness-injection-did-not-fire", {"ran": ran, "k": k}, labels=labels)
-    out = jinns.solve(n_iter=n, init_params=prog["params"], data=prog["data"], loss=prog["loss"], optimizer=prog["optimizer"],
-                      tracked_params=prog["tracked"], verbose=False)
+    if cfg.get("verbose"):
+        labels.append("verbose")
+    with quiet():
+        out = jinns.solve(n_iter=n, init_params=prog["params"], data=prog["data"], loss=prog["loss"], optimizer=prog["optimizer"],
+                          tracked_params=prog["tracked"], **verbosity(cfg))
     params, losses, terms, data, _, opt_state, stored, _, _ = out
     leaves = jax.tree_util.tree_leaves(params)
     if any(bool(np.any(np.isnan(np.asarray(l)))) for l in leaves):
@@ -101,8 +104,10 @@ def enum_faults(tier):
                 sel = [combos[j % len(combos)], combos[(j + 3) % len(combos)]] if tier == "quick" else combos
                 for kind, opt in sel:
                     j += 1
-                    yield {"cfg": base_cfg(kind, j % 4, opt, ["one", "none", "all", "nn"][j % 4]), "k": k, "origin": origin,
-                           "n_iter": n}
+                    # solve()'s printing options (verbose, print_loss_every) alternate over the enumeration
+                    cfg = dict(base_cfg(kind, j % 4, opt, ["one", "none", "all", "nn"][j % 4]), verbose=bool(((j // 4) + j) % 2),
+                               print_every=[1, 2, 1000][j % 3])
+                    yield {"cfg": cfg, "k": k, "origin": origin, "n_iter": n}
 
 
 def subchecks():
